@@ -698,8 +698,12 @@ def loop_fix(self, s, st, frame, head):
     cur = st
     exits = []
     certain = False
+    skipped = None
     save_pc = self.pc
-    for _pass in range(LOOP_PASSES):
+    npasses = LOOP_PASSES
+    _pass = -1
+    while _pass + 1 < npasses:
+        _pass += 1
         frame.loops.append({'breaks': [], 'conts': [], 'certain': False})
         body_in = head(cur.fork(), _pass) if _takes_pass(head) else head(cur.fork())
         if body_in is None:
@@ -717,10 +721,19 @@ def loop_fix(self, s, st, frame, head):
             except PathEnd:
                 pass
         exits.extend(info['breaks'])
-        new = join_st(cur, out)
+        if _pass == 0 and info.get('peeled') and out is not None and self.d4:
+            # the first iteration ran on the entry state with the concrete first index: later iterations start from what it
+            # left behind, not from the entry state (a slot the first iteration overwrites no longer holds its old value)
+            new = out
+            skipped = None if info.get('nonempty') else cur
+            npasses = LOOP_PASSES + 1        # two concrete iterations, then the symbolic passes
+        else:
+            new = join_st(cur, out)
         cur = new
     self.pc = save_pc
     res = cur
+    if skipped is not None:
+        res = join_st(res, skipped)          # the range may be empty: the entry state also reaches the exit
     if certain and exits:
         res = None           # the normal exit is infeasible: the loop always leaves through the break
     elif s.orelse:
@@ -810,11 +823,14 @@ def s_For(self, s, st, frame):
 
     def head(state, npass=1):
         el, _n = self.iter_elem(it, s.iter, s)
-        if npass == 0 and isinstance(it, Opaque) and it.what == 'range' and it.args[0] is not None and isinstance(el, IntV) \
-                and not frame.loops[:-1]:
-            # peeled first iteration of an outermost loop: the loop variable has its first value
-            lo0 = it.args[0]
+        if npass in ((0, 1) if self.d4 else (0,)) and isinstance(it, Opaque) and it.what == 'range' and it.args[0] is not None and isinstance(el, IntV) \
+                and not frame.loops[:-1] and it.args[2] in (1, -1):
+            # peeled first two iterations of an outermost loop: the loop variable has its first / second value
+            lo0 = it.args[0] + npass * it.args[2]
             el = IntV(lo0, el.taint) if not lo0.is_const() else Const(int(lo0.c), el.taint)
+            hi0 = it.args[1]
+            frame.loops[-1]['peeled'] = True
+            frame.loops[-1]['nonempty'] = bool(npass == 0 and it.args[2] == 1 and hi0 is not None and aff_le(lo0 + 1, hi0))
         if self.loop_taint:
             self.pc = self.pc | taint_of(it)
         self.bind(s.target, el, state, s)
